@@ -131,7 +131,7 @@ type c19Pre struct {
 	data     []byte
 	perm     os.FileMode
 	links    int
-	mtimeRel int // seconds relative to the node's mtime
+	mtimeRel int64 // nanoseconds relative to the node's mtime
 }
 
 type c19Case struct {
@@ -202,9 +202,14 @@ func c19GenParts(h *H, big bool) ([][]byte, []string) {
 	return parts, labels
 }
 
+// the node's mtime is vBaseTime + 500 ms; offsets of the existing item's mtime in ns: equal,
+// far away, and less than a second away (inside the same second / across a second boundary)
+var c19NodeMtime = vBaseTime.Add(500 * time.Millisecond)
+var c19MtimeRels = []int64{0, 0, -100e9, 100e9, -300e6, 300e6, -700e6, 700e6, -1, 1}
+
 func c19GenPre(h *H, content []byte, parts [][]byte) (c19Pre, string) {
 	pre := c19Pre{perm: 0600, links: 1}
-	pre.mtimeRel = []int{0, 0, -100, 100}[h.Intn(4)]
+	pre.mtimeRel = c19MtimeRels[h.Intn(len(c19MtimeRels))]
 	lbl := ""
 	rnd := func(n int) []byte {
 		b := h.Bytes(n)
@@ -319,13 +324,58 @@ func streamC19(h *H) {
 			c.ow = []string{"always", "always", "if-changed", "if-changed", "if-newer", "never"}[h.Intn(6)]
 			c.sparse = h.Bool()
 			c.del = h.Intn(4) == 0
+			rndNZ := func(n int) []byte {
+				b := h.Bytes(n)
+				for i := range b {
+					if b[i] == 0 {
+						b[i] = 0x55
+					}
+				}
+				return b
+			}
+			switch h.Intn(12) {
+			case 0:
+				// family "zero chunk over an existing readable file, --sparse": the existing file is
+				// opened in place, so every zero region of the snapshot must really be written
+				if len(content) < c19ZeroChunkLen {
+					c.parts, _ = c19GenParts(h, true)
+					if len(c19Concat(c.parts)) < c19ZeroChunkLen {
+						c.parts = append(c.parts, make([]byte, c19ZeroChunkLen))
+					}
+					content = c19Concat(c.parts)
+					c.size = nil
+				}
+				n := len(content)
+				switch h.Intn(3) {
+				case 1:
+					n -= 1 + h.Intn(1000)
+				case 2:
+					n += 1 + h.Intn(1000)
+				}
+				c.pre = c19Pre{kind: "reg", data: rndNZ(n), perm: 0600, links: 1, mtimeRel: c19MtimeRels[h.Intn(len(c19MtimeRels))]}
+				c.sparse = true
+				c.ow = []string{"always", "if-changed"}[h.Intn(2)]
+				c.labels = []string{"zero-chunk", "family-sparse-over-existing", "pre-random"}
+			case 1:
+				// family "mtime boundary": same size, different content, mtime equal or less than a
+				// second away from the node's; if-changed and if-newer decide on exactly this
+				if len(content) > 0 && len(content) < 4096 && c.size == nil {
+					c.pre = c19Pre{kind: "reg", data: rndNZ(len(content)), perm: 0600, links: 1,
+						mtimeRel: []int64{-300e6, 300e6, -700e6, 700e6, -1, 1, 0}[h.Intn(7)]}
+					c.ow = []string{"if-changed", "if-newer"}[h.Intn(2)]
+					c.labels = append(c.labels[:0], "family-mtime-boundary", "pre-samesize-different")
+				}
+			}
+			if c.pre.mtimeRel != 0 && c.pre.mtimeRel > -1e9 && c.pre.mtimeRel < 1e9 {
+				c.labels = append(c.labels, "mtime-subsecond-apart")
+			}
 			// permission bits only mean something for a non-root restore
 			c.child = canChild && (c.pre.kind == "reg" && c.pre.perm != 0600 || h.Intn(30) == 0)
 			if c.child && len(content) > 100000 && h.Intn(3) > 0 {
 				c.child = false
 			}
 			anyChild = anyChild || c.child
-			node := &vNode{Name: "f", Type: data.NodeTypeFile, Parts: c.parts, Size: c.size}
+			node := &vNode{Name: "f", Type: data.NodeTypeFile, Parts: c.parts, Size: c.size, MTime: c19NodeMtime}
 			_, c.snapID = vSaveSnapshot(repo, []*vNode{node})
 			cases = append(cases, c)
 		}
@@ -344,7 +394,7 @@ func streamC19(h *H) {
 			_ = os.MkdirAll(target, 0755)
 			_ = os.MkdirAll(side, 0755)
 			fpath := filepath.Join(target, "f")
-			mt := vBaseTime.Add(time.Duration(c.pre.mtimeRel) * time.Second)
+			mt := c19NodeMtime.Add(time.Duration(c.pre.mtimeRel))
 			sideContent := []byte("SIDE-CONTENT-MUST-STAY")
 			switch c.pre.kind {
 			case "reg":
@@ -426,9 +476,9 @@ func streamC19(h *H) {
 			}
 			switch c.pre.kind {
 			case "reg":
-				h.Rec("pre", "reg", RLE(c.pre.data), B(readable), B(writable), Itoa(c.pre.links), Itoa(c.pre.mtimeRel))
+				h.Rec("pre", "reg", RLE(c.pre.data), B(readable), B(writable), Itoa(c.pre.links), I64(c.pre.mtimeRel))
 			default:
-				h.Rec("pre", c.pre.kind, "-", "1", "1", "1", Itoa(c.pre.mtimeRel))
+				h.Rec("pre", c.pre.kind, "-", "1", "1", "1", I64(c.pre.mtimeRel))
 			}
 			mode := "inproc"
 			if c.child {
